@@ -40,6 +40,17 @@ def check(run):
             run.guard("C10.2.decode-before-mutate", cfg, lambda: rule_atomic(run, F, cfg))
             run.guard("C10.4.no-input-sized-allocation", cfg, lambda: rule_alloc(run, F, cfg))
             run.guard("C10.1.load-cone-totality", cfg + "/v0-entry", lambda: rule_v0_entry(run, F, cfg))
+    check_no_full_regex(run)
+
+
+def check_no_full_regex(run):
+    """configuration D (built without `full-regex-handling`): data written by another build may carry rules this build
+    would have refused to parse (the IS_COMPLETE_REGEX bit); loading and querying them must not panic either"""
+    for cfg in run.cfgs("D"):
+        F = run.facts(cfg)
+        run.guard("C10.3.query-cone-totality", cfg, lambda: a7.check_cone(
+            run, "C10.3.query-cone-totality", F, cfg, a7_cones.QUERY_ROOTS, a7_common.rows(),
+            a7_common.NO_PARSE_INVARIANT, floor=100, label="post-load query"))
 
 
 def rule_atomic(run, F, cfg):
